@@ -81,6 +81,12 @@ def main():
     undecided = []
     for n in mine:
         r = results[n]
+        if r['status'] == 'undecided' and 'goto-cc failed' in (r.get('reason') or '') and any(k.startswith('loop ') for k in units[n]['sections']):
+            # my loop contracts no longer compile against the extracted body (e.g. a renamed local): the function contract only
+            # names parameters, so the invariant-independent bounded re-check can still decide small instances
+            r['failed'] = [{'obligation': n + '.loop-contract-splice', 'text': 'loop contract text does not compile against the current body: ' + (r.get('reason') or '').split('\n')[2][:200] if len((r.get('reason') or '').split('\n')) > 2 else 'loop contract text does not compile'}]
+            r['status'] = 'refuted'
+            r['only_unknown'] = True
         if r['status'] == 'undecided' and r.get('undecided_obligations') and not r.get('failed'):
             # solver `unknown`/timeout on named obligations: only an invariant-independent counterexample can make this a violation
             r['failed'] = [{'obligation': o, 'text': 'no verdict from the back end (unknown/timeout)'} for o in r['undecided_obligations']]
